@@ -63,7 +63,7 @@ func e1Runs(quick bool) []e1Run {
 }
 
 func e1Check(r *ev.Reporter, prop string, _ []string) {
-	r.Rule = "closed system of n real replicas (+ twin pair / scripted Byzantine replica): every order of deliveries, duplicate deliveries, local timer expiries and crafted messages within the view horizon and budgets, canonical-state merging; monitors for C01/C03/C06/C07 on every transition; distinct = canonical global states"
+	r.Rule = "closed system of n real replicas (+ twin pair / scripted Byzantine replica): every order of deliveries, duplicate deliveries, local timer expiries and crafted messages within the view horizon and budgets, canonical-state merging; monitors for C01/C03/C06/C07 on every transition; C03 and C07 additionally: one real replica against an environment holding all other keys, every input sequence to a depth bound; distinct = canonical global states"
 	var bounds []string
 	for _, run := range e1Runs(r.Quick()) {
 		ex := &cluster.Explorer{Cfg: run.cfg, Bound: run.bound, Deadline: time.Now().Add(run.max)}
@@ -111,6 +111,9 @@ func e1Check(r *ev.Reporter, prop string, _ []string) {
 	}
 	if prop == "C03" {
 		c03Local(r)
+	}
+	if prop == "C07" {
+		c07Local(r)
 	}
 	r.Extra["explorations"] = bounds
 	r.Traces = r.Transitions
